@@ -599,6 +599,9 @@ func (f *Frame) applyContract(instr ssa.Instruction, ct *Contract, callee *ssa.F
 	}
 	bindResults(env, sig, res)
 	for _, e := range ct.Ensures {
+		if strings.HasPrefix(e.Label, "assumed-") {
+			u.note("assumed postcondition " + e.Label + " of " + name + ": " + e.Src)
+		}
 		u.assume(st, ctx.evalBool(e.E))
 	}
 	return res
@@ -640,6 +643,14 @@ func (f *Frame) parseFootprint(ct *Contract, ctx *SpecCtx, pre *State) []fpItem 
 			// exception to "*": objects of this type that existed before keep their contents
 			keys := u.keysForTypeSpec(strings.TrimSpace(m[1:]), ctx.pkg)
 			if len(keys) == 0 {
+				// an exception that names a type of a package which is not loaded (or which this package
+				// cannot name, such as main.FSM seen from internal/ircserver): no object of that type is
+				// reachable here, so there is nothing to keep
+				tn := strings.TrimSpace(m[1:])
+				if k := strings.Index(tn, "."); k > 0 && !strings.Contains(tn, "(") && u.eng.resolveType(tn, ctx.pkg) == nil {
+					u.note("modifies exception " + m + ": type not loaded in this check, nothing to keep")
+					continue
+				}
 				panic(unsupported("modifies: cannot resolve " + m))
 			}
 			items = append(items, fpItem{keys: keys, except: true})
@@ -822,6 +833,14 @@ func (u *Unit) keysForTypeSpecPlain(spec string, pkg *types.Package) []hk {
 	}
 	// Type or Type.field (Type may be pkg.Type)
 	parts := strings.Split(spec, ".")
+	for n := len(parts) - 1; n >= 1; n-- {
+		// ghost field of a named type (struct or interface)
+		if t := u.eng.resolveType(strings.Join(parts[:n], "."), pkg); t != nil && len(parts[n:]) == 1 {
+			if gi := u.eng.ghostOf(t, parts[n]); gi != nil {
+				return []hk{{key: gi.key, sort: gi.sort}}
+			}
+		}
+	}
 	for n := len(parts); n >= 1; n-- {
 		t := u.eng.resolveType(strings.Join(parts[:n], "."), pkg)
 		if t == nil {
@@ -919,7 +938,11 @@ func (f *Frame) havocFootprint(ct *Contract, ctx *SpecCtx, pre, st *State) {
 		for _, k := range excepted {
 			olds[k.key] = u.heapGet(pre, k.key, k.sort)
 		}
-		u.havocAll(st)
+		cp := ""
+		if k := strings.Index(ct.Func, "."); k > 0 {
+			cp = ct.Func[:k]
+		}
+		u.havocAllFor(st, cp)
 		done := map[string]T{}
 		for _, k := range excepted {
 			if u.eng.LockMode && (strings.HasPrefix(k.key, "F:sync.RWMutex.") || k.key == "F:sync.Mutex.sema") {
@@ -935,7 +958,15 @@ func (f *Frame) havocFootprint(ct *Contract, ctx *SpecCtx, pre, st *State) {
 		if u.writeLog != nil {
 			*u.writeLog = append(*u.writeLog, writeRec{key: "*", except: excepted})
 		}
-		return
+		// ghost fields listed next to "*" are havocked like in a plain footprint (below)
+		for k := range byKey {
+			if !isGhostKey(k) {
+				delete(byKey, k)
+			}
+		}
+		if len(byKey) == 0 {
+			return
+		}
 	}
 	var keys []string
 	for k := range byKey {
@@ -981,9 +1012,64 @@ func (f *Frame) havocFootprint(ct *Contract, ctx *SpecCtx, pre, st *State) {
 }
 
 // havocAll forgets the whole heap except iterator state and immutable globals.
-func (u *Unit) havocAll(st *State) {
+// noCallbackPkgs: repo packages whose functions are never handed a function value of package main
+// (no function-typed parameters or fields): they cannot write the package-level variables of package
+// main, which no other package can name.
+var noCallbackPkgs = map[string]bool{"ircserver": true, "outputstream": true, "raftstore": true, "robust": true, "config": true, "raftlog": true}
+
+func (u *Unit) havocAll(st *State) { u.havocAllFor(st, "") }
+
+// havocAllFor: calleePkg is the package name of the callee whose "modifies *" is applied ("" = unknown).
+func (u *Unit) havocAllFor(st *State, calleePkg string) {
 	nh := map[string]T{}
+	if noCallbackPkgs[calleePkg] {
+		// make sure every scalar package-level variable of main is present in the heap map
+		for _, sp := range u.eng.SSAPkgs {
+			if sp == nil || sp.Pkg.Name() != "main" {
+				continue
+			}
+			for _, m := range sp.Members {
+				g, ok := m.(*ssa.Global)
+				if !ok {
+					continue
+				}
+				func() {
+					defer func() { recover() }()
+					p := u.globalPtr(g)
+					if p.LV != nil {
+						(&Frame{u: u}).load(st, p)
+						for _, l := range flatten(p.LV.Typ) {
+							if _, ok := st.heap[p.LV.Key+l.Path]; !ok {
+								st.heap[p.LV.Key+l.Path] = u.heapGet(st, p.LV.Key+l.Path, arrSort(SInt, l.Sort))
+							}
+						}
+					}
+				}()
+			}
+		}
+		kept := false
+		for k, v := range st.heap {
+			if strings.HasPrefix(k, "G:main.") {
+				nh[k] = v
+				kept = true
+			}
+		}
+		if kept {
+			u.note("package-level variables of package main are not written by functions of package " + calleePkg + " (main cannot be imported, and " + calleePkg + " is handed no function value)")
+		}
+	}
+	// ghost fields change only through contracts that list them: "everything" means every location of the program
+	for _, g := range u.eng.ghostKeys() {
+		u.heapGet(st, g.key, g.sort)
+		if _, ok := st.heap[g.key]; !ok {
+			st.heap[g.key] = u.heapGet(st, g.key, g.sort)
+		}
+	}
 	for k, v := range st.heap {
+		if isGhostKey(k) {
+			nh[k] = v
+			continue
+		}
 		if strings.HasPrefix(k, "IT:") || (u.eng.LockMode && (strings.HasPrefix(k, "F:sync.RWMutex.") || k == "F:sync.Mutex.sema")) {
 			// iterator state; with lock tracking: which mutexes this goroutine holds is not changed by callees
 			nh[k] = v
